@@ -368,7 +368,8 @@ type c07Cell struct {
 	Backend string `json:"backend"`
 	TTL     string `json:"ttl"` // "5m" | "unlimited"
 	Keys    string `json:"keys"`
-	First   int    `json:"first"` // first operation (shards the search); -1 = none
+	Log     int    `json:"log,omitempty"` // allshards: logger shape, see c07Logger
+	First   int    `json:"first"`         // first operation (shards the search); -1 = none
 }
 
 func (c c07Cell) id() string { js, _ := json.Marshal(c); return string(js) }
@@ -401,6 +402,11 @@ func c07Cells(tier string) []Cell {
 	for _, b := range backendKinds {
 		for _, ttl := range []string{"5m", "unlimited"} {
 			cells = append(cells, Cell{ID: c07Cell{Backend: b, TTL: ttl, Keys: "allshards", First: -1}.id()})
+
+			// ... once more with loggers of every shape attached (the batch operations log what they did)
+			for lg := 1; lg <= 4; lg++ {
+				cells = append(cells, Cell{ID: c07Cell{Backend: b, TTL: ttl, Keys: "allshards", First: -1, Log: lg}.id()})
+			}
 		}
 	}
 
@@ -431,6 +437,25 @@ func allShardKeys() [][]byte {
 	return append(byShard, extra...)
 }
 
+// c07Logger: loggers with different optional capabilities (the library probes for Warn / Important / Debug).
+func c07Logger(i int) cache.Logger {
+	n := new(int)
+	f := func(ctx context.Context, msg string, kv ...interface{}) { *n++ }
+
+	switch i {
+	case 1:
+		return errOnlyLogger{n: n}
+	case 2:
+		return cache.NewLogger(f, nil, nil, f) // Error and Debug only
+	case 3:
+		return cache.NewLogger(f, nil, f, nil) // Error and Important only
+	case 4:
+		return cache.NewLogger(f, f, f, f)
+	}
+
+	return nil
+}
+
 // c07AllShards populates every shard and runs every sequence of <=3 batch / time operations, comparing with the
 // model after each of them.
 func c07AllShards(cc c07Cell, env *Env) CellResult {
@@ -441,6 +466,8 @@ func c07AllShards(cc c07Cell, env *Env) CellResult {
 	if cc.TTL == "unlimited" {
 		cfg.TimeToLive = cache.UnlimitedTTL
 	}
+
+	cfg.Logger = c07Logger(cc.Log)
 
 	ops := []bop{
 		{name: "ExpireAll", kind: "expireall"},
@@ -498,11 +525,19 @@ func c07AllShards(cc c07Cell, env *Env) CellResult {
 
 			names = append(names, ops[o].name)
 
-			if ops[o].kind == "writeall" {
-				msg, ok = writeAll()
-			} else {
-				msg, ok = st.apply(ops[o])
-			}
+			func() {
+				defer func() {
+					if r := recover(); r != nil {
+						msg, ok = fmt.Sprintf("%s panicked: %v", ops[o].name, r), false
+					}
+				}()
+
+				if ops[o].kind == "writeall" {
+					msg, ok = writeAll()
+				} else {
+					msg, ok = st.apply(ops[o])
+				}
+			}()
 
 			res.Transitions++
 		}
